@@ -15,7 +15,10 @@
    AsIsIAdd = TRUE: `+=` appends before testing positions (defect D15).       *)
 EXTENDS Integers, Sequences, FiniteSets, TLC
 
-CONSTANTS MaxObjs, AsIsIAdd
+CONSTANTS MaxObjs, AsIsIAdd,
+          Ops,           \* names of the operations enabled in this configuration (focus configurations use a subset)
+          Terminal,      \* operations after which a behaviour ends (keeps exhaustive focus configurations small)
+          StrSizes, Aboves
 
 VARIABLES obj, last
 vars == <<obj, last>>
@@ -53,6 +56,13 @@ NewList(S) ==   \* a python list of loose antennas / lists the caller holds
     /\ \A n, m \in 1..Len(S) : n # m => S[n] # S[m]
     /\ obj' = Append(obj, [k |-> "list", items |-> S])
     /\ last' = [op |-> "NewList", items |-> S, slot |-> Len(obj) + 1]
+
+(* a nested python list [[a], [b]] of two fresh antennas *)
+NewNested == /\ Room(5)
+             /\ LET b == Len(obj) IN
+                obj' = obj \o <<Ant(FALSE), Ant(FALSE), [k |-> "list", items |-> <<b + 1>>], [k |-> "list", items |-> <<b + 2>>],
+                                [k |-> "list", items |-> <<b + 3, b + 4>>]>>
+             /\ last' = [op |-> "NewNested", slot |-> Len(obj) + 5]
 
 (* a string of n antennas; with an antenna above the ice the constructor must refuse *)
 NewStr(cls, n, above) ==
@@ -166,17 +176,19 @@ Triggered(i, mc, K) ==
        IN /\ obj' = [n \in 1..Len(obj) |-> IF n \in asked THEN [obj[n] EXCEPT !.tgot = K \cap TrigAcc(obj[n].cls)] ELSE obj[n]]
           /\ last' = [op |-> "Triggered", a |-> i, mc |-> mc, kw |-> K, val |-> res, asked |-> asked]
 
-Next == \/ \E ab \in BOOLEAN : NewAnt(ab)
-        \/ \E i, j \in 1..Len(obj) : NewList(<<i, j>>) \/ NewList(<<i>>)
-        \/ \E c \in {"A", "B"}, n \in 1..2, ab \in BOOLEAN : NewStr(c, n, ab)
-        \/ \E c1, c2 \in {"A", "B"} : NewSta(c1, c2)
-        \/ \E i, j \in 1..Len(obj) : Plus(i, j)
-        \/ \E i, j \in 1..Len(obj) : IPlus(i, j)
-        \/ \E i, j, m \in 1..Len(obj) : Sum3(i, j, m)
-        \/ \E a \in 1..Len(obj) : Hit(a)
-        \/ \E i \in 1..Len(obj) : Clear(i)
-        \/ \E i \in 1..Len(obj), K \in BuildKws : Build(i, K)
-        \/ \E i \in 1..Len(obj), mc \in BOOLEAN, K \in TrigKws : Triggered(i, mc, K)
+On(name) == name \in Ops /\ last.op \notin Terminal
+Next == \/ On("NewAnt") /\ \E ab \in BOOLEAN : NewAnt(ab)
+        \/ On("NewList") /\ \E i, j \in 1..Len(obj) : NewList(<<i, j>>) \/ NewList(<<i>>)
+        \/ On("NewNested") /\ NewNested
+        \/ On("NewStr") /\ \E c \in {"A", "B"}, n \in StrSizes, ab \in Aboves : NewStr(c, n, ab)
+        \/ On("NewSta") /\ \E c1, c2 \in {"A", "B"} : NewSta(c1, c2)
+        \/ On("Plus") /\ \E i, j \in 1..Len(obj) : Plus(i, j)
+        \/ On("IPlus") /\ \E i, j \in 1..Len(obj) : IPlus(i, j)
+        \/ On("Sum3") /\ \E i, j, m \in 1..Len(obj) : Sum3(i, j, m)
+        \/ On("Hit") /\ \E a \in 1..Len(obj) : Hit(a)
+        \/ On("Clear") /\ \E i \in 1..Len(obj) : Clear(i)
+        \/ On("Build") /\ \E i \in 1..Len(obj), K \in BuildKws : Build(i, K)
+        \/ On("Triggered") /\ \E i \in 1..Len(obj), mc \in BOOLEAN, K \in TrigKws : Triggered(i, mc, K)
 Spec == Init /\ [][Next]_vars
 
 (* ------------------------------ properties ------------------------------ *)
